@@ -540,10 +540,13 @@ def execute(trace):
         """bookkeeping after an op that may have written bundle / index files; returns a violation or None."""
         count_faults(fired)
         evs = diskseam.op_events()
-        b_ok = any(e[0] == "w" and ".bundle" in e[1] and e[3] is None for e in evs)
-        b_bad = any(e[0] == "w" and ".bundle" in e[1] and e[3] is not None for e in evs)
-        x_ok = any(e[0] == "w" and e[1].endswith(".indexing") and e[3] is None for e in evs)
-        x_bad = any(e[0] == "w" and e[1].endswith(".indexing") and e[3] is not None for e in evs)
+        # classify by what the file name CONTAINS, so that a loader writing through a temporary name is understood too
+        idx_ev = [e for e in evs if e[0] == "w" and ".indexing" in e[1]]
+        bun_ev = [e for e in evs if e[0] == "w" and ".bundle" in e[1] and ".indexing" not in e[1]]
+        b_ok = any(e[3] is None for e in bun_ev)
+        b_bad = any(e[3] is not None for e in bun_ev)
+        x_ok = any(e[3] is None for e in idx_ev)
+        x_bad = any(e[3] is not None for e in idx_ev)
         if b_ok or b_bad:
             M["exported"] |= M["active"]
             if b_bad:
@@ -561,7 +564,7 @@ def execute(trace):
             M["exported"] |= M["active"]
             M["resaved_over_export"] -= M["active"]
             M["active"] = set()
-        if x_ok or (kind in ("export_indexing", "full_export") and err is None and not x_bad and not fired):
+        if (x_ok and not x_bad) or (kind in ("export_indexing", "full_export") and err is None and not x_bad and not idx_ev and not fired):
             M["index_fresh"] = True
             M["index_at_risk"] = False
             M["disk_at_risk"] = set(M["at_risk"])    # the durable index now maps these ids to a damaged bundle file
